@@ -251,10 +251,26 @@ def rule_reset(facts):
     return r
 
 
+def rule_dict_size(facts):
+    """The distance guards compare with the window's dict_size: it must be the header's value (raised to 4096), not more."""
+    from rules import C01
+    r = report.RuleResult("C09.R5", "the dictionary bound of the guards is the header's dictionary size (minimum 4096)")
+    src = C01.rule_header(facts)
+    for f in src.findings:
+        if "clamp" in f.key:
+            f.rule = "C09.R5"
+            r.findings.append(f)
+            r.obligations += 1
+    r.sites = 1
+    if not r.findings:
+        r.ok("evaluation", {"dict_size in effect": "max(header field, 0x1000)"})
+    return r
+
+
 def run(ctx, t0):
     facts = ctx.facts()
     pat.FACTS = facts
-    rules = [rule_reset(facts), rule_guards(facts), rule_privacy(facts), rule_offsets(facts)]
+    rules = [rule_dict_size(facts), rule_reset(facts), rule_guards(facts), rule_privacy(facts), rule_offsets(facts)]
     expl = ("Static: for each implementor of the window trait (enumerated from the impl list) the distance guards are "
             "located by the provenance of their operands, their failing edges must reach Err only and they must "
             "dominate every buffer access and append of the function; field privacy shows the module is the only "
